@@ -44,6 +44,10 @@ type Scenario struct {
 	Check func(x *vrt.Exec) []Finding
 	// NoCache disables happens-before state caching (pure stateless search).
 	NoCache bool
+	// Single marks a scenario that is one deterministic execution (NoBranch for its whole
+	// length): one worker (chosen by the scenario's name) runs it instead of every worker
+	// repeating it.
+	Single bool
 	// Journal makes the worker record the schedule it is about to run, so that a worker
 	// killed by the runtime (fatal error, out of memory) is reported as a violation of
 	// that execution instead of an internal failure.
@@ -243,7 +247,7 @@ func (e *explorer) explore(prefix []int, depth int) {
 		e.stats.CapHit = fmt.Sprintf("max_execs=%d", e.sc.MaxExecs)
 		return
 	}
-	owned := depth >= e.split || ownerOf(prefix, e.shards) == e.shard
+	owned := e.sc.Single || depth >= e.split || ownerOf(prefix, e.shards) == e.shard
 	if e.sc.Journal && journalPath != "" {
 		writeJournal(e.sc.Name, prefix)
 	}
@@ -341,7 +345,19 @@ func (e *explorer) explore(prefix []int, depth int) {
 // exploreScenario runs the iterative bounding for one scenario in this shard.
 //
 //go:norace
+// singleOwner spreads single-execution scenarios over the workers.
+func singleOwner(name string, shards int) int {
+	h := uint32(2166136261)
+	for i := 0; i < len(name); i++ {
+		h = (h ^ uint32(name[i])) * 16777619
+	}
+	return int(h % uint32(shards))
+}
+
 func exploreScenario(sc *Scenario, shard, shards int, deadline time.Time) result {
+	if sc.Single && singleOwner(sc.Name, shards) != shard {
+		return result{Scenario: sc.Name, Stats: Stats{Outcomes: map[string]int{}, BoundDone: sc.PB, Exhaustive: true}}
+	}
 	st := Stats{Outcomes: map[string]int{}, BoundDone: -1}
 	e := &explorer{sc: sc, shard: shard, shards: shards, split: 2, stats: &st, viol: map[string]*Violation{}, deadline: deadline}
 	if shards == 1 {
